@@ -3,7 +3,9 @@ package props
 import (
 	"encoding/json"
 	"fmt"
+	"sort"
 	"strings"
+	"sync/atomic"
 
 	"verif/ev"
 	"verif/mc"
@@ -340,6 +342,66 @@ func runC01(e *Env) {
 		e.R.Transition(int64(len(c.Insts)))
 	})
 	e.R.AddPart(ev.Part{Name: "cli-slice", Enumerated: "real binary: 28 keys x {1,b3,#4,5,9} x {no bass,3,b7} documents of all 46 look-ups; key by --key flag or by first instance alternately", Executions: int64(len(cjs) * len(lookups)), Exhaustive: true})
+
+	// (e) whole-dictionary pieces: every (degree up to the 24th, look-up) chord that stays inside
+	// the MIDI range, all in ONE piece per key, in ascending, descending and symbol-major order, with
+	// and without a bass: whatever the write path remembers from one chord to the next (a cache,
+	// a reused buffer, a running maximum) meets every other chord here
+	wide := theory.IntervalsUpTo(24)
+	type wjob struct {
+		key   theory.Key
+		order int
+		bass  *theory.Interval
+	}
+	var wjobs []wjob
+	wkeys := keys
+	if !e.Thorough {
+		wkeys = nil
+		for i, k := range keys {
+			if i%5 == 0 {
+				wkeys = append(wkeys, k)
+			}
+		}
+	}
+	for _, k := range wkeys {
+		for order := 0; order < 3; order++ {
+			wjobs = append(wjobs, wjob{k, order, nil}, wjob{k, order, ivp("5")})
+		}
+	}
+	var wchords int64
+	mc.ParFor(len(wjobs), func(i int) {
+		j := wjobs[i]
+		var all []refplay.Inst
+		for _, d := range wide {
+			for _, s := range lookups {
+				ch := &refplay.Chord{Degree: d, Symbol: s, Bass: j.bass}
+				p, err := chordPitches(m, j.key, ch)
+				if err != nil || p[0] < 0 || p[len(p)-1] > 127 {
+					continue
+				}
+				all = append(all, refplay.Inst{Chord: ch, Values: one()})
+			}
+		}
+		switch j.order {
+		case 1:
+			for a, b := 0, len(all)-1; a < b; a, b = a+1, b-1 {
+				all[a], all[b] = all[b], all[a]
+			}
+		case 2:
+			sort.SliceStable(all, func(a, b int) bool { return all[a].Chord.Symbol < all[b].Chord.Symbol })
+		}
+		all[0].Key = sp(j.key.String())
+		c := playCase{Path: "lib", Insts: all}
+		c01Doc(e, m, &c)
+		atomic.AddInt64(&wchords, int64(len(all)))
+		e.R.Transition(int64(len(all)))
+		e.R.NonTrivialN(1)
+		if i%6 == 0 {
+			cc := playCase{Path: "cli", Insts: all}
+			c01Doc(e, m, &cc)
+		}
+	})
+	e.R.AddPart(ev.Part{Name: "whole-dictionary-pieces", Enumerated: fmt.Sprintf("%d keys x {ascending, descending, grouped by symbol} x {no bass, bass 5}: one piece holding every (degree 1..24 x quality, look-up) chord that stays inside the MIDI range (%d chords in all); in-process, every 6th piece also through the real binary", len(wkeys), wchords), Executions: int64(len(wjobs)), Transitions: wchords, Exhaustive: true})
 
 	// (d) long documents: the key in force, the look-up and the octave of the 100th chord
 	runLong(e, 16, func(c *playCase) { c01Doc(e, m, c) })
